@@ -4,6 +4,8 @@
 //! behaviour of the queues.
 
 #[cfg(not(feature = "std"))]
+use crate::core_iterators::std;
+#[cfg(not(feature = "std"))]
 use std::vec::Vec;
 
 use crate::store::Store;
